@@ -21,6 +21,13 @@ Proof. vm_compute. reflexivity. Qed.
 Lemma dep_sites_classified : forallb (classified_ok dep_map_range_exceptions) dep_map_range_sites = true.
 Proof. vm_compute. reflexivity. Qed.
 
+(* no exception entry covers more than one site; no reviewed ambient use covers more than one call *)
+Lemma exceptions_cover_one_site_each :
+  one_site_per_entry map_range_exceptions map_range_sites = true /\
+  one_site_per_entry dep_map_range_exceptions dep_map_range_sites = true /\
+  one_call_per_allowed ambient_allowed ambient_calls = true.
+Proof. repeat split; vm_compute; reflexivity. Qed.
+
 Lemma sites_unclassified_none : unclassified map_range_exceptions map_range_sites = [].
 Proof. vm_compute. reflexivity. Qed.
 
@@ -464,3 +471,39 @@ Proof. intros e _. apply reasons_sound. Qed.
 Example header_defaults_hypothesis_satisfiable :
   NoDup (map (fun kv : str * N => (fun s : str => s) (fst kv)) [([85], 1); ([65], 2)]%N).
 Proof. simpl. repeat constructor; simpl; intuition discriminate. Qed.
+
+(* ---- the known dependency findings, with the inputs of their `known:` lines ---------------------------------------- *)
+
+(* exactly three, and none inside goflow: a fourth cannot appear in a table silently *)
+Lemma known_findings_listed :
+  known_classes map_range_exceptions = [] /\
+  known_classes dep_map_range_exceptions =
+    ["dates:locale-match-map-order"; "dates:parse-error-ambiguous-layout-token"; "urns:percent-escape-map-order"]%string.
+Proof. split; vm_compute; reflexivity. Qed.
+
+(* urns:percent-escape-map-order, input `a%2523b` (path of ext:a%2523b): visiting '%' before '#' gives `a#b`, visiting '#'
+   before '%' gives `a%23b` *)
+Definition path_a_2523_b : str := [97; 37; 50; 53; 50; 51; 98]%N.
+
+Lemma urns_unescape_refuted :
+  exists l1 l2, Permutation l1 l2 /\ NoDup (map fst l1) /\
+    urns_unescape l1 path_a_2523_b = [97; 35; 98]%N /\ urns_unescape l2 path_a_2523_b = [97; 37; 50; 51; 98]%N.
+Proof.
+  exists [(37, (37, 50, 53)); (35, (37, 50, 51)); (63, (37, 51, 70))]%N, urn_escapes.
+  split. { unfold urn_escapes. apply perm_swap. }
+  split. { simpl. repeat constructor; simpl; intuition discriminate. }
+  split; vm_compute; reflexivity.
+Qed.
+
+(* dates:parse-error-ambiguous-layout-token, layout `tt:mm`: the reverse look-up "which layout token maps to 15" is a first
+   match over a map in which `t` (116) and `tt` (116 116) both map to `15` (49 53) *)
+Lemma dates_parse_error_token_refuted :
+  exists l1 l2 : list (str * str), Permutation l1 l2 /\ NoDup (map fst l1) /\
+    first_match (fun kv => str_eqb (snd kv) [49; 53]%N) fst l1 = Some [116]%N /\
+    first_match (fun kv => str_eqb (snd kv) [49; 53]%N) fst l2 = Some [116; 116]%N.
+Proof.
+  exists [([116], [49; 53]); ([116; 116], [49; 53])]%N, [([116; 116], [49; 53]); ([116], [49; 53])]%N.
+  split. { apply perm_swap. }
+  split. { simpl. repeat constructor; simpl; intuition discriminate. }
+  split; vm_compute; reflexivity.
+Qed.
